@@ -2,6 +2,7 @@ package main
 
 import (
 	"fmt"
+	"os"
 	"go/types"
 	"strings"
 
@@ -92,6 +93,8 @@ type Unit struct {
 	usedLemmas map[string]bool
 	nonNil map[string]bool
 	covCtr int
+	assumedText map[string]bool
+	heapNames map[string]bool // heaps this unit has touched (hermetic mod-set computation)
 	ifaceDyn map[string]dynInfo
 	pendingLive [][2]string
 	callOrd map[string]int
@@ -203,6 +206,10 @@ func (u *Unit) heap(st *State, name, smtSort string) Term {
 		u.liveAxiom(name, init, sanitize("G.nextRef")+"!init")
 	}
 	u.eng.heapSorts[name] = smtSort
+	if u.heapNames == nil {
+		u.heapNames = map[string]bool{}
+	}
+	u.heapNames[name] = true
 	t := Term{init, nil}
 	st.heaps[name] = t
 	return t
@@ -231,7 +238,7 @@ func (u *Unit) havocHeap(st *State, name string) Term {
 // that exists, i.e. lies below the allocation frontier of that moment.
 func (u *Unit) liveAxiom(name, version, frontier string) {
 	k, ok := u.eng.heapKinds[name]
-	if !ok {
+	if !ok || os.Getenv("GOVC_NOLIVE") != "" {
 		return
 	}
 	if !u.decl[frontier] && strings.HasSuffix(frontier, "!init") {
